@@ -28,6 +28,10 @@ func chainCheck(prop string) func(x *Ctx, c *proto.Case, r *proto.Result) {
 			return
 		}
 		run := r.Runs[0]
+		if e.Want.Ambiguous {
+			x.Count("unspecified_skipped_pipeline_not_asserted", 1)
+			return
+		}
 		ops, logic, _ := chainStats(e.Units)
 		nontrivial := false
 		switch prop {
@@ -140,8 +144,8 @@ func init() {
 		ID:    "C04",
 		Level: "exploration",
 		Rule: "PRNG chains of 1-8 leaf commands (out / exit-code functions vf0..vf7 / err / stdin-tagging function vtg) joined by ; newline && || and | -> pipelines, run at top level and as a function body, compared with a reference interpreter of the normal run mode; " +
-			"&&/||-joined units are single commands (the statement is silent on skipping part of a pipeline); non-trivial = at least 2 operators and at least one && or ||; distinct by program text",
-		Assumptions: []string{"leaf commands out/err/return/<stdin>->set behave as documented (they are the observation channel)", "pipelines joined by &&/|| are not generated"},
+			"a case in which a whole multi-stage pipeline is skipped by &&/|| is executed but not asserted (the statement is silent on what its later stages do); non-trivial = at least 2 operators and at least one && or ||; distinct by program text",
+		Assumptions: []string{"leaf commands out/err/return/<stdin>->set behave as documented (they are the observation channel)", "skipped multi-stage pipelines are not asserted"},
 		Check:       chainCheck("C04"),
 		Run: func(x *Ctx) {
 			pool := x.NewPool(false)
@@ -163,7 +167,7 @@ func init() {
 		ID:    "C05",
 		Level: "exploration",
 		Rule: "the same PRNG chains (1-8 commands, ; && || |) wrapped in try {}, trypipe {}, and functions starting with `runmode try|trypipe function`, compared with reference models of the two modes; " +
-			"||-joined alternatives are single commands; non-trivial = the chain contains || or a command fails before the end; distinct by (wrapper, program text)",
+			"a case in which a multi-stage ||-alternative is skipped is executed but not asserted; non-trivial = the chain contains || or a command fails before the end; distinct by (wrapper, program text)",
 		Assumptions: []string{"leaf commands out/err/return/<stdin>->set behave as documented", "tryerr/trypipeerr are not part of the statement and are not generated"},
 		Check:       chainCheck("C05"),
 		Run: func(x *Ctx) {
